@@ -144,6 +144,8 @@ CLAIMS = {
  "C15": dict(
    text=("Theorems: C15_options_ok (every option string of documented items — any order, repeated — is accepted and each item has "
          "its documented effect, a repeated item acting as its last occurrence: tokenizer model = fold of item meanings), "
+         "C15_last_occurrence (an earlier occurrence of an item given again later has no effect at all, list-valued items of any "
+         "two lengths included) and C15_kinds_independent (OptionLaws.v), "
          "C15_options_unknown, C15_options_absent, C15_option_names (the names the source recognises, regenerated each run), "
          "C15_join (for every entry list: the value lines of a key under JOIN_SAME_ENTRIES are those of all its definitions since "
          "its last empty one), C15_nojoin_first, C15_python_indented (in every state directly after an entry an indented line "
